@@ -90,10 +90,18 @@ def oracle(workload, adm, ref_ledger, ref_seen, final, pre_ledger, post_ledger, 
         k = c.get("crash_after_commit", c.get("after_commit"))
         n = c.get("commits_in_step") or 0
         # StartStage commits: poll(0) claim(1) [add synthetic stages]* plan(n-3) processor-mark(n-2) ack(n-1)
-        if str(c.get("handling", "")).startswith("d:StartStage") and k is not None and 1 <= k <= max(1, n - 4):
+        h = str(c.get("handling", ""))
+        if h.startswith("d:StartStage") and k is not None and 1 <= k <= max(1, n - 4):
             tag = "claim-plan-window"
+            # the same window while a stale CompleteTask for a task of this very stage is still queued
+            # (only reachable on jump loops under a reordering baseline): recovery then believes the task
+            # is already being driven and pushes nothing
+            stage = h.split(":")[2] if h.count(":") >= 2 else ""
+            if any(q.startswith(f"CompleteTask:{stage}:") for q in c.get("queued_at_crash", ())):
+                tag = "claim-plan-window+stale-task-message"
     ref_status = ref_final_status or {}
-    if tag is None and any(ref_status.get(e["stage"]) == "SKIPPED" for e in full):
+    # a branch the uninterrupted run SKIPPED has executed: that effect has one known cause, whatever else crashed
+    if any(ref_status.get(e["stage"]) == "SKIPPED" for e in full):
         tag = "revived-skipped-branch"
     if tag is None and view.wf["status"] == "RUNNING" and any(
             s["status"] == "RUNNING" and any(t[1] == "REDIRECT" for t in s["tasks"]) for s in view.stages.values()):
@@ -135,7 +143,8 @@ def run_job(job):
                 evals += 1
                 infl = [inflight_task(s.action)]
                 where = {"crash_after_commit": s.k, "of_step": s.step, "handling": s.action, "order": order,
-                         "ledger_cut": cut, "commits_in_step": commits_in(snaps, s)}
+                         "ledger_cut": cut, "commits_in_step": commits_in(snaps, s),
+                         "queued_at_crash": list(eng.last_crash_queue)}
                 vs = oracle(workload, adm, base_ledger, ref_seen or seen_set(workload, pre + post), final, pre, post,
                             infl, where, ref_status)
                 outcomes[dumps(final.view.outcome())] += 1
@@ -145,10 +154,11 @@ def run_job(job):
                         pre2 = pre + post[: max(0, s2.ledger_len)]
                         for order2 in ("restart-first",):
                             final2, post2, _ = eng.recover(s2, order2, ec=s2.ec, record=False)
+                            q2 = list(eng.last_crash_queue)
                             evals += 1
                             infl2 = infl + [inflight_task(s2.action)]
                             where2 = dict(where, second_crash={"after_commit": s2.k, "of_step": s2.step,
-                                                               "handling": s2.action,
+                                                               "handling": s2.action, "queued_at_crash": q2,
                                                                "commits_in_step": commits_in(snaps2, s2)})
                             vs2 = oracle(workload, adm, base_ledger,
                                          ref_seen or seen_set(workload, pre2 + post2), final2, pre2, post2, infl2, where2,
